@@ -1,7 +1,7 @@
 #!/bin/bash
-# usage: tools/confirm_mutant.sh Cxx "<pytest targets>"  -- confirms a round-2 seeded change in /var/tmp/mut2/Cxx and stores it under seeded/Cxx/round2
-p=$1; tests=${2:-testing}
-wt=/var/tmp/mut2/$p
+# usage: tools/confirm_mutant.sh Cxx "<pytest targets>" [round]  -- confirms a seeded change in /var/tmp/mut<round>/Cxx and stores it under seeded/Cxx/round<round>
+p=$1; tests=${2:-testing}; round=${3:-2}
+wt=/var/tmp/mut$round/$p
 cd $wt || exit 1
 git apply --check -R patch.diff 2>/dev/null || { git checkout -- src; git apply patch.diff; }
 PYTHONPATH=$wt/src timeout 150 /venv/bin/python demo.py > /var/tmp/demo_with_$p.out 2>&1; with=$?
@@ -10,12 +10,12 @@ PYTHONPATH=$wt/src timeout 150 /venv/bin/python demo.py > /var/tmp/demo_without_
 git apply patch.diff
 suite=$(PYTHONPATH=$wt/src timeout 1800 /venv/bin/python -m pytest -q -p no:cacheprovider $tests 2>&1 | grep -E "passed|failed|^FAILED" | tr '\n' ' ' | cut -c1-600)
 echo "$p demo_with=$with demo_without=$without suite: $suite"
-mkdir -p /verif/seeded/$p/round2
-cp patch.diff demo.py notes.md /verif/seeded/$p/round2/
-python3 - "$p" "$with" "$without" "$suite" <<'PY'
+mkdir -p /verif/seeded/$p/round$round
+cp patch.diff demo.py notes.md /verif/seeded/$p/round$round/
+python3 - "$p" "$with" "$without" "$suite" "$round" <<'PY'
 import json,sys
-p,w,wo,suite=sys.argv[1:5]
-json.dump({"property":p,"round":2,"base":"/repo HEAD with the fix commits","confirmed_by_me":{"demo_exit_with_patch":int(w),"demo_exit_without_patch":int(wo),"suite":suite},
+p,w,wo,suite,rnd=sys.argv[1:6]
+json.dump({"property":p,"round":int(rnd),"base":"/repo HEAD with the fix commits","confirmed_by_me":{"demo_exit_with_patch":int(w),"demo_exit_without_patch":int(wo),"suite":suite},
  "note":"always-failing test_dont_write_bytecode and load-flaky test_channel_passing_over_channel / test__rinfo / test_waitclose_on_remote_killed fail the same way without the patch"},
- open("/verif/seeded/%s/round2/meta.json"%p,"w"),indent=1)
+ open("/verif/seeded/%s/round%s/meta.json"%(p,rnd),"w"),indent=1)
 PY
